@@ -7,8 +7,8 @@ ENGINES = {
 POSTGRES = "PostgresStore cannot be executed in this sandbox (no server, none installable): decided for memory and SQLite only"
 SAMPLED = "absence is not established: the result means no counterexample among the generated cases of the stated shape"
 
-INTERLEAVE = ' || interleaving tier (the harness owns the schedule): a generated prologue leaves leases live, expired, superseded or settled; then two generated operations A and B run on two handles (two SQLiteStore values on one file, or one MemoryStore); A is held at its n-th yield point (n generated: a read of the injected clock or one of ten verif hook points inside the store - after BEGIN IMMEDIATE, around the lease UPDATE, around COMMIT, between batch rows) while B runs to completion or is seen waiting for A, then A is released; oracle: the two answers, the contents afterwards and the answers of a fixed epilogue (stats, dequeue everything, list) equal those of one sequential order of the documented atomic steps of the two operations (a by-filter mutation is select-then-id-list-mutation, everything else one step), each reference order executed on a fresh store under the transition validator; non-trivial = A was held, B completed while A was held, and the sequential orders differ among themselves'
-PREEMPT = "interleaving tier: one preemption per pair (A interrupted once, by all of B), at clock reads and the instrumented points only; interleavings that need B to be interrupted as well, or a switch between two uninstrumented statements, are left to the stress tiers"
+INTERLEAVE = ' || interleaving tier (the harness owns the schedule): a generated prologue leaves leases live, expired, superseded or settled; then two generated operations A and B run on two handles (two SQLiteStore values on one file, or one MemoryStore); A is held at its n-th yield point (n generated: a read of the injected clock, the point before any SQL statement (wrapping database/sql driver), or one of ten verif hook points inside the store - after BEGIN IMMEDIATE, around the lease UPDATE, around COMMIT, between batch rows) while B runs to completion or is seen waiting for A, then A is released; oracle: the two answers, the contents afterwards and the answers of a fixed epilogue (stats, dequeue everything, list) equal those of one sequential order of the documented atomic steps of the two operations (a by-filter mutation is select-then-id-list-mutation, everything else one step), each reference order executed on a fresh store under the transition validator; non-trivial = A was held, B completed while A was held, and the sequential orders differ among themselves'
+PREEMPT = "interleaving tier: one preemption per pair (A interrupted once, by all of B), at clock reads, before every SQL statement (wrapping driver) and at the instrumented points; interleavings that need B to be interrupted as well are left to the stress tiers"
 
 PROPS = {
     "C01": {
